@@ -58,6 +58,9 @@ pub struct Cfg {
     /// the pair's cw20 asset (only when the pair has one asset of each kind)
     #[serde(default)]
     pub alias_denom: bool,
+    /// both pool assets are native coins whose denoms differ by letter case only ("uaaa" / "uAAA")
+    #[serde(default)]
+    pub case_twin: bool,
 }
 
 #[derive(Serialize, Deserialize, Clone, Debug, PartialEq)]
@@ -536,6 +539,7 @@ impl Scenario for Pool2 {
         // the fee of one asset under both (its ledgers are keyed by the bare id string); see
         // observations/alias-denom-*.json and DESIGN 11.4 (N12)
         let alias_denom = rng.chance(1, 8) && kinds[0] != kinds[1];
+        let case_twin = kinds[0] == Kind::Native && kinds[1] == Kind::Native && rng.chance(1, 4);
         let mut fees = gen_fees(rng);
         let mut weights = weights;
         if alias_denom {
@@ -555,6 +559,7 @@ impl Scenario for Pool2 {
             boundary,
             weights,
             alias_denom,
+            case_twin,
         }
     }
 
@@ -565,6 +570,9 @@ impl Scenario for Pool2 {
     fn build(cfg: &Cfg, _ctx: &mut Ctx) -> Self {
         let mut denoms_s = ["uaaa".to_string(), "ubbb".to_string(), "uccc".to_string()];
         let mut alias: Option<(usize, usize)> = None;
+        if cfg.case_twin && cfg.kinds[0] == Kind::Native && cfg.kinds[1] == Kind::Native {
+            denoms_s[1] = "uAAA".to_string();
+        }
         if cfg.alias_denom {
             let nat = (0..2).find(|i| cfg.kinds[*i] == Kind::Native);
             let tok = (0..2).find(|i| cfg.kinds[*i] == Kind::Cw20);
